@@ -212,6 +212,13 @@ func runC14(r *mc.Run) {
 				c /= 4
 			}
 			add(id, p)
+			if n == 4 {
+				for fk, fv := range map[string][]byte{"eq": raw0[48+232 : 48+280], "df": world.Fill("c14-other-owner", 48)} {
+					p2 := proto.Clone(p).(*ccpb.Policy)
+					tp(p2).MrOwner = append([]byte(nil), fv...)
+					add(id+"+mr_owner="+fk, p2)
+				}
+			}
 		}
 	}
 	ak := []string{"eq", "df", "em", "sh", "lo"}
@@ -241,6 +248,15 @@ func runC14(r *mc.Run) {
 				c /= 5
 			}
 			add(id, p)
+			// together with the exact mr_td expectation (equal / different) and with a header field
+			for mk, mv := range map[string][]byte{"eq": raw0[48+136 : 48+184], "df": world.Fill("c14-other-mrtd", 48)} {
+				p2 := proto.Clone(p).(*ccpb.Policy)
+				tp(p2).MrTd = append([]byte(nil), mv...)
+				add(id+"+mr_td="+mk, p2)
+			}
+			p3 := proto.Clone(p).(*ccpb.Policy)
+			hp(p3).QeVendorId = append([]byte(nil), raw0[12:28]...)
+			add(id+"+qe_vendor_id=eq", p3)
 		}
 	}
 
